@@ -8,8 +8,11 @@ package gogen
 import (
 	"go/ast"
 	"go/constant"
+	"go/importer"
+	"go/parser"
 	"go/token"
 	"go/types"
+	"strings"
 
 	"github.com/goplus/gogen/internal/vp"
 )
@@ -418,4 +421,121 @@ func VerifH_C17_ops() {
 			cb.EndStmt()
 		}
 	})
+}
+
+// C01 at expression level: whenever one of the value-producing operations is accepted on a pair
+// of operands, the emitted expression must type-check in an environment declaring the operands.
+const verifOpsEnv = `package p
+
+var (
+	i   int
+	s   string
+	sl  []int
+	m   map[string]int
+	p   *struct{ X int }
+	st  struct{ X int }
+	fn  func() (int, error)
+	ch  <-chan int
+	e   interface{}
+	arr *[3]int
+)
+`
+
+func VerifH_C01_ops() {
+	pkg := verifNewPkg()
+	tint := types.Typ[types.Int]
+	cb := pkg.NewFunc(nil, "f", nil, nil, false).BodyStart(pkg)
+	ops := []string{"slice", "slice3", "index", "index2", "star", "elem", "assert", "assert2", "unary-", "unary!", "unary^", "unary<-", "unary&", "binary+", "binary-", "binary<<", "binary==", "binary<", "binary&&", "binary%", "member", "call1", "call0"}
+	op := ops[vp.Choose("op", len(ops))]
+	var ret *Element
+	class := vp.Try(func() {
+		verifC17Operand(cb, pkg, "a")
+		switch op {
+		case "slice":
+			cb.None()
+			verifC17Operand(cb, pkg, "b")
+			cb.Slice(false)
+		case "slice3":
+			cb.None()
+			verifC17Operand(cb, pkg, "b")
+			cb.Val(2).Slice(true)
+		case "index":
+			verifC17Operand(cb, pkg, "b")
+			cb.Index(1, 0)
+		case "index2":
+			verifC17Operand(cb, pkg, "b")
+			cb.Index(1, 2)
+		case "star":
+			cb.Star()
+		case "elem":
+			cb.Elem()
+		case "assert":
+			cb.TypeAssert(tint, 0)
+		case "assert2":
+			cb.TypeAssert(TyError, 2)
+		case "unary-":
+			cb.UnaryOp(token.SUB)
+		case "unary!":
+			cb.UnaryOp(token.NOT)
+		case "unary^":
+			cb.UnaryOp(token.XOR)
+		case "unary<-":
+			cb.UnaryOpEx(token.ARROW, 2)
+		case "unary&":
+			cb.UnaryOp(token.AND)
+		case "binary+", "binary-", "binary<<", "binary==", "binary<", "binary&&", "binary%":
+			verifC17Operand(cb, pkg, "b")
+			cb.BinaryOp(map[string]token.Token{"binary+": token.ADD, "binary-": token.SUB, "binary<<": token.SHL, "binary==": token.EQL, "binary<": token.LSS, "binary&&": token.LAND, "binary%": token.REM}[op])
+		case "member":
+			cb.MemberVal("X", 0)
+		case "call1":
+			verifC17Operand(cb, pkg, "b")
+			cb.Call(1)
+		case "call0":
+			cb.Call(0)
+		}
+		ret = cb.Get(-1)
+	})
+	vp.Assert("C17.c01ops.nofault", class != vp.FaultPanic)
+	if class != vp.NoPanic || ret == nil || ret.Type == nil {
+		return
+	}
+	if _, isType := ret.Type.(*TypeType); isType {
+		return // *T built by Star on a type operand: a type expression, not a value
+	}
+	text := verifExprText(ret)
+	vp.Observe("expr", text)
+	if strings.Contains(text, "_autoGo_") {
+		return // index/member sugar on any: the hoisted assertion statement is not part of the expression
+	}
+	lhs := "_"
+	if t, ok := ret.Type.(*types.Tuple); ok {
+		if t.Len() == 0 {
+			lhs = ""
+		} else {
+			lhs = "_" + strings.Repeat(", _", t.Len()-1)
+		}
+	}
+	stmt := lhs + " = " + text
+	if lhs == "" {
+		stmt = text
+	}
+	fset := token.NewFileSet()
+	f, err := parser.ParseFile(fset, "p.go", verifOpsEnv+"\nfunc zz() {\n"+stmt+"\n}\n", 0)
+	ok := err == nil
+	msg := ""
+	if ok {
+		tc := types.Config{Importer: importer.Default(), Error: func(e error) {
+			if msg == "" {
+				msg = e.Error()
+			}
+		}}
+		tc.Check("example.com/p", fset, []*ast.File{f}, nil)
+		ok = msg == ""
+	}
+	vp.Observe("gotypes", msg)
+	vp.Fact("isfloatop", verifB2I(strings.Contains(text, "1.5") && (op == "binary<<" || op == "binary%" || op == "unary^")))
+	vp.Fact("addrop", verifB2I(op == "unary&"))
+	vp.Fact("constconv", verifB2I(text == "int(1.5)"))
+	vp.Assert("C01.ops.sound", ok)
 }
